@@ -14,7 +14,7 @@
 """This module contains a compiler to reduce a sequence of passive gates into a single multimode linear passive operation"""
 
 import numpy as np
-from strawberryfields.program_utils import Command
+from strawberryfields.program_utils import Command, CircuitError
 from strawberryfields import ops
 from strawberryfields.parameters import par_evaluate
 
@@ -145,6 +145,15 @@ class Passive(Compiler):
         Raises:
             CircuitError: the circuit does not correspond to a passive unitary
         """
+
+        # a single transformation on a fixed set of modes cannot create or delete modes
+        for operations in seq:
+            if operations.op.__class__.__name__ in ("_New_modes", "_Delete"):
+                raise CircuitError(
+                    "The compiler '{}' cannot compile circuits that create or delete modes.".format(
+                        self.short_name
+                    )
+                )
 
         # Check which modes are actually being used
         used_modes = []
